@@ -270,11 +270,11 @@ template<class T> struct Tables {
 
 // ---- an element type whose payload is itself an asl::Array: arguments can live inside an element of the same array
 struct Node {
-	int v; Array<Node> kids;
+	int v; Array<Node> kids; Array<int> ints;
 	static long live;
 	Node(int x = 0) : v(x) { live++; }
-	Node(const Node& o) : v(o.v), kids(o.kids) { live++; }
-	Node& operator=(const Node& o) { v = o.v; kids = o.kids; return *this; }
+	Node(const Node& o) : v(o.v), kids(o.kids), ints(o.ints) { live++; }
+	Node& operator=(const Node& o) { v = o.v; kids = o.kids; ints = o.ints; return *this; }
 	~Node() { live--; }
 };
 long Node::live = 0;
@@ -285,7 +285,9 @@ static std::string renderN(const Array<Node>& a, int depth)
 	std::string s;
 	for (int i = 0; i < a.length(); i++) {
 		if (i) s += ",";
-		s += str(a[i].v) + ":" + str(a[i].kids.rc()) + "[" + renderN(a[i].kids, depth - 1) + "]";
+		s += str(a[i].v) + ":" + str(a[i].kids.rc()) + "<" + str(a[i].ints.rc()) + ";";
+		for (int k = 0; k < a[i].ints.length(); k++) { if (k) s += "."; s += str(a[i].ints[k]); }
+		s += ">[" + renderN(a[i].kids, depth - 1) + "]";
 	}
 	return s;
 }
@@ -314,7 +316,9 @@ struct NodeTable {
 		if (len == 0) return "skip";
 		int j = (int)(num(t[3]) % len);
 		if (op == "kapp" && n == 5) { Array<Node>& k = a[j].kids; if (k.rc() > 1) return "skip"; k << Node((int)num(t[4])); return "ok"; }
+		if (op == "iapp" && n == 5) { Array<int>& k = a[j].ints; if (k.rc() > 1) return "skip"; k << (int)num(t[4]); return "ok"; }
 		if (op == "asgk" && n == 4) { a = a[j].kids; return "ok"; }
+		if (op == "asgi" && n == 4) { if (a.rc() > 1) return "skip"; a = a[j].ints; return "ok"; }
 		if (op == "apndk" && n == 4) { if (a.rc() > 1) return "skip"; a.append(a[j].kids); return "ok"; }
 		if (op == "copyk" && n == 4) { if (a.rc() > 1) return "skip"; a.copy(a[j].kids); return "ok"; }
 		if (op == "rem" && n == 4) { a.remove(j); return "ok"; }
